@@ -31,6 +31,26 @@ Proof.
   injection H as H1 H2. destruct Hin as [->|Hin]; auto.
 Qed.
 
+(** Header versions: if every store puts into a header the number the file holds there (the writer stores what the reader
+    recorded), saving leaves every header version as it was; a store of any other number changes that header. *)
+Lemma save_versions_recorded_identity : forall (V : Type) (stores : list (nat * V)) (hver : nat -> V),
+  (forall p, In p stores -> snd p = hver (fst p)) -> forall l, save_versions stores hver l = hver l.
+Proof.
+  intros V stores hver. unfold save_versions.
+  assert (G : forall (h : nat -> V), (forall l, h l = hver l) -> (forall p, In p stores -> snd p = hver (fst p)) ->
+              forall l, fold_left (fun h p => upd h (fst p) (snd p)) stores h l = hver l).
+  { induction stores as [|p r IH]; intros h Hh Hs l; cbn [fold_left]; [apply Hh|].
+    apply IH; [|intros q Hq; apply Hs; now right].
+    intros l'. unfold upd. destruct (Nat.eqb l' (fst p)) eqn:E; [|apply Hh].
+    apply Nat.eqb_eq in E. subst l'. apply Hs. now left. }
+  intros Hs l. apply G; [reflexivity | exact Hs].
+Qed.
+
+Lemma save_versions_other_number_refuted :
+  save_versions [(65, 7)] (fun l => if Nat.eqb l 65 then 10 else 0) 65 = 7 /\
+  save_versions [(65, 10)] (fun l => if Nat.eqb l 65 then 10 else 0) 65 = 10.
+Proof. vm_compute. split; reflexivity. Qed.
+
 Section Proofs.
   Variables D P : Type.
   Variable empty : D.
